@@ -182,25 +182,23 @@ Definition FUEL := 60.
 Definition follows (t : table) (rt : rtable) (s : scen) (fails : list nat) : bool :=
   raccepts rt (model_trace s fails) FUEL (index_of (entry_of (sc_op s)) t) (env_of (sc_fl s)).
 
-(* ... without a failure, and with the n-th effect failing for every position n of the
-   failure-free run *)
-Definition scen_ok (t : table) (rt : rtable) (s : scen) : bool :=
-  follows t rt s [] &&
-  forallb (fun n => follows t rt s [n]) (seq 0 (List.length (model_trace s []))).
+(* ... without a failure, and with the n-th effect failing for every position n below len
+   (len = the length of the failure-free run).  [F fails] is [follows t rt s fails]; kept
+   abstract so that the lifting lemma does not have to unfold the checker. *)
+Definition single_ok (F : list nat -> bool) (len : nat) : bool :=
+  F [] && forallb (fun n => F [n]) (seq 0 len).
 
-(* two failures: the n-th effect and the m-th one after it, for the first [w] positions m *)
-Definition scen_ok2 (t : table) (rt : rtable) (w : nat) (s : scen) : bool :=
-  forallb (fun n => forallb (fun m => follows t rt s [n; n + 1 + m]) (seq 0 w))
-          (seq 0 (List.length (model_trace s []))).
+Notation scen_ok t rt s := (single_ok (follows t rt s) (List.length (model_trace s []))).
 
-(* the finite checks behind the theorems of Engine/SkeletonProofs.v *)
+(* the finite checks behind the theorems of Engine/SkeletonProofs*.v (notations, so that the
+   statements are syntactically nested forallb's) *)
 
-(* every assignment of the eight options, no failure *)
-Definition check_all_flags (t : table) (rt : rtable) : bool :=
-  forallb (fun o => forallb (fun mh => forallb (fun v => all_flags mh v (fun fl =>
-  forallb (fun l => fb (fun ad => follows t rt (mkScen o fl l ad) [])) ledgers)) versions) max_histories) ops.
+(* operation o: the options it reads, no failure and every single failure *)
+Notation check_op o t rt :=
+  (forallb (fun fl => forallb (fun l => fb (fun ad =>
+     scen_ok t rt (mkScen o fl l ad))) ledgers) (flag_space o)).
 
-(* the options the operation reads, no failure and every single failure *)
-Definition check_failures (t : table) (rt : rtable) : bool :=
-  forallb (fun o => forallb (fun fl => forallb (fun l => fb (fun ad =>
-    scen_ok t rt (mkScen o fl l ad))) ledgers) (flag_space o)) ops.
+(* operation o: every assignment of the eight options (also the ones it does not read),
+   max-history 2, no failure *)
+Notation check_op_all_flags o t rt :=
+  (all_flags 2 0 (fun fl => forallb (fun l => fb (fun ad => follows t rt (mkScen o fl l ad) [])) ledgers)).
